@@ -3,7 +3,7 @@ CFG = dict(
               "C17.global_result_exact", "C17.global_restart_state", "C17.global_restart_empty",
               "C17.global_group_isolation_partial", "C17.global_group_isolation_fails",
               "C17.trigger_binding_same_call", "C17.trigger_binding_sound", "C17.global_trace_partial",
-              "C17.running_aggregate_eq", "C17.facts_global_window"],
+              "C17.spec_determines_trace", "C17.running_aggregate_eq", "C17.facts_global_window"],
     unproved=["C17.global_fires_iff_full (false of the code as it is: negation proved as global_fires_iff_fails; class null-aggregate-in-predicate)",
               "C17.global_group_isolation_full for the code's encoder encJoin (false: negation proved as global_group_isolation_fails; class group-key-collision; C04 repairs the encoder)",
               "the textual half of buildTrigger (aggCallRe, normalizeTriggerPredicate, first-occurrence strings.Replace) and the SQL parser's rendering of TRIGGER WHEN: tied by correspondence only"],
